@@ -156,3 +156,122 @@ def check_interrupt(facts):
             findings.append({"props": ["C06"], "key": "interrupt entry|mem-count", "form": "interrupt entry", "aspect": "mem-count",
                              "msg": "interrupt entry performs %d byte accesses, manual: %d" % (len(cm), len(sem.mem)), "witness": None, "detail": {}})
     return {"findings": findings, "ob": ob, "ok_traces": nok, "traces": len(outs)}
+
+
+# (name suffix, operand address width, size in bytes, 'r'/'w')
+ACCESS_HELPERS = [(("read" if k == "r" else "write") + "_abs%d_%s" % (w, s), w, n, k)
+                  for w in (8, 16, 24) for (s, n) in (("b", 1), ("w", 2), ("l", 4)) for k in ("r", "w")]
+
+
+def check_access_helpers(facts):
+    """C09, composition clause: every CPU access helper read/write_abs{8,16,24}_{b,w,l} performs
+    exactly `size` byte accesses through Bus::read / Bus::write, byte i at EA+i (EA = the manual's
+    expansion of the 8/16/24-bit absolute address, 32-bit wrapping), most significant byte first;
+    a read returns the big-endian composition of the bytes read; the result is Ok iff every byte
+    access succeeded and the helper stops at the first failing byte.  Decided for all operand
+    addresses and values by analysing the real bodies over the bus primitives."""
+    findings = []
+    ob = [0, 0]
+    analysed = []
+
+    def count(ok):
+        ob[0] += 1
+        ob[1] += 1 if ok else 0
+
+    def add(name, what, msg, cond=None):
+        w = isacheck.group_witness(bv.M.describe_assign(bv.M.sat_one(cond))) if cond not in (None, 0, 1) else None
+        findings.append({"props": ["C09"], "key": "%s|%s" % (name, what), "form": name, "aspect": what, "msg": "%s: %s" % (name, msg), "witness": w, "detail": {}})
+
+    for (name, aw, size, kind) in ACCESS_HELPERS:
+        cands = [k for k in facts.find(name) if "impl cpu::Cpu" in k or k.startswith("cpu::")]
+        if len(cands) != 1:
+            add(name, "anchor", "helper not found (%d candidates): the access helpers of the CPU changed, the composition rule cannot be applied" % len(cands))
+            count(False)
+            continue
+        bv.reset()
+        I = isamod.Isa(facts)
+        ip = I.make_interp()
+        cpu = I.fresh_cpu()
+        body = facts.bodies[cands[0]]
+        argw = 32 if aw == 24 else aw
+        a = bv.top_bv("a", argw, 16)
+        if aw == 8:
+            ea = tuple(a) + bv.const(0xFFFF, 16) + (0,) * 8
+        elif aw == 16:
+            ea = tuple(a) + (a[15],) * 8 + (0,) * 8
+        else:
+            ea = tuple(a)
+        args = [Ref(isamod.CPU_ROOT, ()), Int(a)]
+        val = None
+        if kind == "w":
+            val = bv.data_bv("v", 8 * size)
+            args.append(Int(val))
+        outs = ip.run_all(body["key"], args, {isamod.CPU_ROOT: cpu})
+        if ip.unknown_callees:
+            raise RuntimeError("%s: unmodelled callees %r" % (name, ip.unknown_callees))
+        analysed.append(name)
+        total = 0
+        nok = 0
+        for o in outs:
+            care = o.state.pc
+            if care == 0:
+                continue
+            total = bv.M.OR(total, care)
+            if o.kind == "panic":
+                add(name, "panic:%s" % o.info.get("kind"), "can panic (%s, line %s)" % (o.info.get("kind"), o.info.get("line")), care)
+                count(False)
+                continue
+            if o.kind != "return":
+                add(name, "outcome:" + o.kind, "unexpected outcome %s" % o.kind, care)
+                count(False)
+                continue
+            st = o.state
+            acc = [e for e in st.eff if e[0] in ("memread", "memwrite", "memread_fail", "memwrite_fail")]
+            okres = isinstance(o.value, Enum) and o.value.variant == models.OK
+            failed = [e for e in acc if e[0].endswith("_fail")]
+            good = [e for e in acc if not e[0].endswith("_fail")]
+            # shape: size successful accesses and Ok, or k < size successes, one failure, Err
+            shape = (okres and not failed and len(good) == size) or \
+                    ((not okres) and len(failed) == 1 and acc[-1] is failed[0] and len(good) < size)
+            count(shape)
+            if not shape:
+                add(name, "shape", "%s result after %d successful and %d failing byte accesses (a %d-byte access must make %d byte accesses, fail at the first inaccessible byte and succeed otherwise)"
+                    % ("Ok" if okres else "Err", len(good), len(failed), size, size), care)
+                continue
+            bad = False
+            for i, e in enumerate(acc):
+                want = "memread" if kind == "r" else "memwrite"
+                if not e[0].startswith(want):
+                    add(name, "direction", "byte access %d is a %s" % (i, e[0]), care)
+                    count(False)
+                    bad = True
+                    break
+                n0 = len(findings)
+                _cmp(findings, count, name, e[1], bv.add(ea, bv.const(i, 32)), care, ["C09"], "address of byte %d (must be EA+%d)" % (i, i))
+                if e[0] == "memwrite":
+                    hi = 8 * (size - i)
+                    _cmp(findings, count, name, e[2], val[hi - 8:hi], care, ["C09"], "value of byte %d (big-endian: bits %d..%d of the operand)" % (i, hi - 1, hi - 8))
+                if len(findings) != n0:
+                    bad = True
+                    break
+            if bad or not okres:
+                continue
+            nok += 1
+            if kind == "r":
+                if isinstance(o.value.fields[0], Int):
+                    comp = ()
+                    for e in acc:
+                        comp = tuple(e[2]) + comp
+                    _cmp(findings, count, name, o.value.fields[0].bits, comp, care, ["C09"], "result (big-endian composition of the bytes read)")
+                else:
+                    count(False)
+                    add(name, "result", "result is not a function of the bytes read", care)
+            cpuv = st.mem[isamod.CPU_ROOT]
+            _cmp(findings, count, name, cpuv.fields[I.fi["pc"]].bits, bv.data_bv("pc", 24) + (0,) * 8, care, ["C09"], "PC untouched")
+        aux = set(r for r in bv.M.support(total) if 100 <= r < 2000)
+        complete = bv.M.exists(total, aux) == 1
+        clean = not any(f_["form"] == name for f_ in findings)
+        count(complete and (nok >= 1 or not clean))
+        if not complete or (nok == 0 and clean):
+            add(name, "coverage", "the analysed traces do not cover every operand (or none succeeds)")
+    return {"findings": findings, "ob": ob, "helpers": analysed}
